@@ -18,11 +18,12 @@ VARIABLES l,      \* next line of the trace
           wid,    \* its id (for messages)
           edit,   \* [chain, label, args]: how w was obtained from prevW (chain = FALSE: unrelated)
           prevW,  \* previous world of the same behaviour
+          baseW,  \* first world of the behaviour (diffs over several edits)
           obsL,   \* plain `list` observation of w (if made), else NoObs
           prevL,  \* plain `list` observation of prevW
           fbase,  \* first Format event of the current world for each exposure setting (cross-format comparison)
           mism    \* number of rejected events so far
-vars == <<l, w, wid, edit, prevW, obsL, prevL, fbase, mism>>
+vars == <<l, w, wid, edit, prevW, baseW, obsL, prevL, fbase, mism>>
 
 NoWorld == [nil |-> TRUE]
 NoObs == [nil |-> TRUE, outcome |-> "none"]
@@ -30,7 +31,7 @@ NoEdit == [chain |-> FALSE, label |-> "", args |-> <<>>]
 NoBase == [f |-> [nil |-> TRUE], t |-> [nil |-> TRUE]]
 
 Init == /\ l = 1 /\ w = NoWorld /\ wid = -1 /\ mism = 0
-        /\ edit = NoEdit /\ prevW = NoWorld /\ obsL = NoObs /\ prevL = NoObs
+        /\ edit = NoEdit /\ prevW = NoWorld /\ baseW = NoWorld /\ obsL = NoObs /\ prevL = NoObs
         /\ fbase = NoBase
 
 IsEvent(e) == l <= Len(Trace) /\ Trace[l].ev = e /\ l' = l + 1
@@ -43,6 +44,7 @@ TraceWorld == /\ IsEvent("World")
               /\ w' = Trace[l].world /\ wid' = Trace[l].id
               /\ edit' = [chain |-> Trace[l].chain, label |-> Trace[l].label, args |-> Trace[l].args]
               /\ prevW' = w /\ prevL' = obsL /\ obsL' = NoObs /\ fbase' = NoBase
+              /\ baseW' = IF Trace[l].base THEN Trace[l].world ELSE IF Trace[l].chain THEN baseW ELSE NoWorld
               /\ UNCHANGED mism
 
 (* observed point set for a pair of abstract peers *)
@@ -61,7 +63,7 @@ EdgeLawMismatches(obs) ==
 NoAdmin(ww) == Len(ww.anps) = 0 /\ ww.banp.nil
 
 TraceList == /\ IsEvent("List")
-             /\ UNCHANGED <<w, wid, edit, prevW, prevL, fbase>>
+             /\ UNCHANGED <<baseW, w, wid, edit, prevW, prevL, fbase>>
              /\ LET ev == Trace[l]
                     plain == ~ev.opts.exposure /\ ev.opts.focus = "" /\ ~ev.opts.stop
                     expo == ev.opts.exposure /\ ev.opts.focus = "" /\ ~ev.opts.stop
@@ -76,25 +78,26 @@ TraceList == /\ IsEvent("List")
                              ELSE {})
 
 TraceEval == /\ IsEvent("Eval")
-             /\ UNCHANGED <<w, wid, edit, prevW, prevL, obsL, fbase>>
+             /\ UNCHANGED <<baseW, w, wid, edit, prevW, prevL, obsL, fbase>>
              /\ LET lc(p, q) == ObsConn(w, obsL, p, q)
                 IN Report(EvalMismatches(w, Trace[l].obs, obsL.outcome = "ok", lc))
 
 (* C04: diff(prev, cur), diff(cur, prev) and diff(cur, cur); only between worlds whose keys are unambiguous *)
 TraceDiff == /\ IsEvent("Diff")
-             /\ UNCHANGED <<w, wid, edit, prevW, prevL, obsL, fbase>>
+             /\ UNCHANGED <<baseW, w, wid, edit, prevW, prevL, obsL, fbase>>
              /\ LET ev == Trace[l]
-                    a == IF ev.dir = "fwd" THEN prevW ELSE w
-                    b == IF ev.dir = "rev" THEN prevW ELSE w
-                IN Report(IF DistinctKeys(a) /\ DistinctKeys(b) THEN DiffMismatches(a, b, ev.obs) ELSE {})
+                    \* fwd / rev: one edit apart; base / baserev: against the first world of the behaviour (several edits apart)
+                    a == CASE ev.dir = "fwd" -> prevW [] ev.dir = "base" -> baseW [] OTHER -> w
+                    b == CASE ev.dir = "rev" -> prevW [] ev.dir = "baserev" -> baseW [] OTHER -> w
+                IN Report(IF "nil" \notin DOMAIN a /\ "nil" \notin DOMAIN b /\ DistinctKeys(a) /\ DistinctKeys(b) THEN DiffMismatches(a, b, ev.obs) ELSE {})
 
 TraceFocus == /\ IsEvent("Focus")
-              /\ UNCHANGED <<w, wid, edit, prevW, prevL, obsL, fbase>>
+              /\ UNCHANGED <<baseW, w, wid, edit, prevW, prevL, obsL, fbase>>
               /\ Report(IF obsL.outcome = "ok" THEN FocusMismatches(w, obsL, Trace[l].W, Trace[l].obs) ELSE {})
 
 TraceFormat ==
   /\ IsEvent("Format")
-  /\ UNCHANGED <<w, wid, edit, prevW, prevL, obsL>>
+  /\ UNCHANGED <<baseW, w, wid, edit, prevW, prevL, obsL>>
   /\ LET ev == Trace[l]
          base == IF ev.exposure THEN fbase.t ELSE fbase.f
          asBase == [nil |-> FALSE, fmt |-> ev.fmt, exposure |-> ev.exposure, out |-> ev.out]
@@ -104,11 +107,11 @@ TraceFormat ==
         /\ Report(FormatMismatches(ev, base))
 
 TraceDiffFormat == /\ IsEvent("DiffFormat")
-                   /\ UNCHANGED <<w, wid, edit, prevW, prevL, obsL, fbase>>
+                   /\ UNCHANGED <<baseW, w, wid, edit, prevW, prevL, obsL, fbase>>
                    /\ Report(DiffFormatMismatches(Trace[l]))
 
 TraceDeterminism == /\ IsEvent("Determinism")
-                    /\ UNCHANGED <<w, wid, edit, prevW, prevL, obsL, fbase>>
+                    /\ UNCHANGED <<baseW, w, wid, edit, prevW, prevL, obsL, fbase>>
                     /\ Report(DeterminismMismatches(Trace[l]))
 
 Next == TraceWorld \/ TraceList \/ TraceEval \/ TraceDiff \/ TraceFocus \/ TraceFormat \/ TraceDiffFormat \/ TraceDeterminism
